@@ -28,7 +28,7 @@ DKinds == WKinds \cup {"noctr", "noinp"}
 GhostTx == [k |-> "ghost", c |-> 0]
 WTx == [k : WKinds, c : Coins]
 DTx == [k : DKinds, c : Coins] \cup {GhostTx}
-Preds == {"true", "false", "none"}
+Preds == {"true", "false", "bad", "none"}
 Whos == {"A", "B", "N"}          \* A: the coins above; B: exactly one coin, never spent; N: no coins
 
 VARIABLES height,     \* latest block height
@@ -69,6 +69,7 @@ Res(s, v) == [s |-> s, v |-> v]
 ExecTx(V, t, uv) ==
   IF t \in V.done THEN [e |-> "dup", v |-> V, r |-> Res("-", -1)]
   ELSE IF uv /\ (t.k = "ghost" \/ t.c \in V.spent) THEN [e |-> "coin", v |-> V, r |-> Res("-", -1)]
+  \* a contract input must exist, with or without utxo validation (inputs are checked in order: the coin first)
   ELSE IF t.k = "noctr" \/ (t.k = "inc" /\ ~V.dep) THEN [e |-> "contract", v |-> V, r |-> Res("-", -1)]
   ELSE LET V1 == [V EXCEPT !.spent = @ \cup (IF t.k = "ghost" THEN {} ELSE {t.c}), !.done = @ \cup {t}] IN
        CASE t.k \in {"ok", "ghost"} -> [e |-> "", v |-> V1, r |-> Res("S", 1)]
@@ -91,9 +92,9 @@ DryRunAnswer(txs, at, uv) ==
   IF at > height + 1 THEN [e |-> "height", r |-> <<>>]
   ELSE ExecSeq(IF at = 0 \/ at = height + 1 THEN LatestView ELSE PastView(at - 1), txs, UvEff(uv), <<>>)
 
-EstAnswer(p) == CASE p = "true"  -> [e |-> "", r |-> <<Res("G", 1)>>]
-                  [] p = "false" -> [e |-> "pred", r |-> <<>>]
-                  [] p = "none"  -> [e |-> "", r |-> <<Res("G", 0)>>]
+\* estimation only measures: a predicate that returns 0 is estimated like one that returns 1, one that panics (a
+\* contract instruction) is left with gas 0, like a transaction without predicates
+EstAnswer(p) == [e |-> "", r |-> <<Res("G", IF p \in {"true", "false"} THEN 1 ELSE 0)>>]
 
 \* assembleTx: the fee payer's coins come from the off-chain index; the contract input is added by the assembler
 AsmFunds(who) == CASE who = "A" -> offchain.owned # {} [] who = "B" -> TRUE [] who = "N" -> FALSE
@@ -142,6 +143,9 @@ Produce ==
   /\ poolTxs' = {}
   /\ GhostForget
   /\ act' = [name |-> "Produce"]
+
+\* wall-clock time passes (a second or more); nothing else happens
+Tick == UNCHANGED vars /\ act' = [name |-> "Tick"]
 
 \* dg: what the abstract answer leaves out (receipts, gas, fee, storage reads, the assembled transaction): an
 \* opaque id, 0 in the model, the interned digest of the complete answer in implementation traces
